@@ -1,4 +1,4 @@
 SPECIFICATION Spec
-CONSTANTS MaxChunks = 4 Variant = "ok"
+CONSTANTS MaxChunks = 5 Variant = "ok"
 INVARIANTS AcceptIffValid MeaningExact PrefixOnError FunctionalAgrees
 CHECK_DEADLOCK FALSE
